@@ -75,6 +75,8 @@ type Exec struct {
 	tweaks       int
 	mapSites     int
 	stubRet      map[string][]Value
+	stubSeq      map[string]map[int][]Value // per-call canned results (vStubReturnN)
+	stubCalls    map[string]int
 	vfs          map[string]*vfsNode
 	mapSite      int
 	rotations    []string
@@ -639,6 +641,15 @@ func (x *Exec) callFunction(fn *ssa.Function, args []Value, bind []Value) (ret V
 	}
 	if fn.Synthetic == "package initializer" && (x.initPkg == nil || fn.Pkg != x.initPkg) {
 		return nil // other packages are initialised lazily on first access to their globals
+	}
+	if seq, ok := x.stubSeq[name]; ok {
+		n := x.stubCalls[name]
+		x.stubCalls[name] = n + 1
+		if canned, ok := seq[n]; ok {
+			x.calllog = append(x.calllog, name+"("+x.renderArgs(args)+")")
+			x.stubsHit["stub:"+name] = true
+			return x.cannedResult(fn, canned)
+		}
 	}
 	if canned, ok := x.stubRet[name]; ok {
 		x.calllog = append(x.calllog, name+"("+x.renderArgs(args)+")")
